@@ -503,6 +503,12 @@ def c20(run, tier):
     cfg = run.cfg("MC_Cli.cfg", {}, "gen.cfg")
     rep = run.tlc_gen_replay("MC_Cli", cfg, "runs", timeout=900, harness_args=["-workers", "8"])
     run.absorb(rep, VALUE_ASPECTS | {"output", "diag", "cli"})
+    # code -> spec: random argument trees (nested directories, every file class, symbolic links, standard input) and random flags
+    # incl. -t html; per entry the prefixed stdout lines, the diagnostics and the shape of the library's result are logged and
+    # Trace_Cli.tla judges each run against CliOutput.tla
+    trace = os.path.join(run.work, "cli-runs.ndjson")
+    run.harness_cmd(["cli-record", "-n", str(Q(tier, 400, 4000)), "-out", trace], "cli-record")
+    run.judge_trace(trace, "Trace_Cli", "cli-runs", "C20.trace", workers=1, timeout=1800)
 
 
 def c20_replay(run, path):
